@@ -51,7 +51,7 @@ def machine_rule(ctx, tier):
                    detail={'trace': list(v['trace']), 'transition': v.get('transition')})
 
 
-def regex_rule(ctx):
+def regex_rule(ctx, rule='C05.R4'):
     rx.prepare(ctx.model)
     m = ctx.model
     node = m.consts.get(('RetractionState', 'GCODE_PARAMS_REGEX'))
@@ -59,19 +59,21 @@ def regex_rule(ctx):
         raise AnalysisError('anchor vanished: RetractionState.GCODE_PARAMS_REGEX')
     pat = m.fold('RetractionState', node.args[0])
     # normalised command text as the hooks pass it: code, optional sub-code, optional " parameters" (no line breaks)
-    normal = r"[GgMmTt][0-9]+(?:\.[0-9]+)?(?: [^\r\n]*)?"
+    # the command text as the hooks pass it: code, optional sub-code, then the parameters - with or without a blank in between
+    # ("G10 S1", "G10S1"); OctoPrint strips leading blanks and only recognises a code whose number follows the letter directly
+    normal = r"[GgMmTt][0-9]+(?:\.[0-9]+)?(?:[^0-9.\r\n][^\r\n]*)?"
     body = pat
     if body.startswith('^'):
         body = body[1:]
     if body.endswith('$'):
         body = body[:-1]
     ok, cex = rx.included(normal, body)
-    ctx.instance('C05.R4', pat)
+    ctx.instance(rule, pat)
     if not ok:
-        ctx.report('C05.R4', 'RetractionState._addCommands', 'GCODE_PARAMS_REGEX rejects "%s"' % rx.show(cex),
+        ctx.report(rule, 'RetractionState._addCommands', 'GCODE_PARAMS_REGEX rejects "%s"' % rx.show(cex),
                    'for a command of the shape "%s" the regex does not match, re.sub then returns the whole command and the '
                    'generated firmware retraction becomes "G10 <whole original command>"' % rx.show(cex))
-    ctx.sample({'rule': 'C05.R4', 'pattern': pat})
+    ctx.sample({'rule': rule, 'pattern': pat})
 
 
 def recorded_amount_c05(col, gcode, paths, I):
